@@ -61,6 +61,32 @@ class TStr(Ty):
         return True
 
 
+class TLin(Ty):
+    """LP variable / linear expression: represented by its value under an arbitrary assignment."""
+
+    def show(self):
+        return "LinExpr"
+
+    def sort(self):
+        return z3.RealSort()
+
+    def is_scalar(self):
+        return True
+
+
+class TLinVar(Ty):
+    """LP variable object (identity in the uninterpreted sort LPVar, value lp_val(v))."""
+
+    def show(self):
+        return "LinVar"
+
+    def sort(self):
+        return z3.DeclareSort("LPVar")
+
+    def is_scalar(self):
+        return True
+
+
 class TNone(Ty):
     def show(self):
         return "None"
@@ -247,6 +273,10 @@ class Schema:
                 return TNone()
             if nm in ("Any", "object"):
                 return TAny()
+            if nm == "LinExpr":
+                return TLin()
+            if nm == "LinVar":
+                return TLinVar()
             if nm in self.classes:
                 d = self.classes[nm]
                 if d.get("kind") == "rec":
